@@ -194,6 +194,11 @@ pub struct NetCfg {
     pub jitter_ns: u64,
     /// Salt of the ECMP hash.
     pub ecmp_salt: u32,
+    /// A device in front of the router at distance `.0` inserts `.1` words of IP options
+    /// (no-operation octets) into every IPv4 datagram it forwards: routers behind it quote
+    /// an internet header longer than the one the tracer sent (RFC 792: "internet header +
+    /// 64 bits"), the identifying fields are where the header length says.
+    pub ip_options: Option<(u32, u8)>,
 }
 
 impl NetCfg {
@@ -272,6 +277,9 @@ pub struct FaultCfg {
     pub addr_in_use_from_round: u32,
     /// The per-probe datagram sockets of unprivileged UDP collide as well.
     pub addr_in_use_udp: bool,
+    /// A collision storm of exact length: in every round from `addr_in_use_from_round` on,
+    /// after `.0` successful TCP binds the next `.1` binds fail with EADDRINUSE.
+    pub addr_in_use_burst: Option<(u32, u32)>,
     pub tick_base_ns: u64,
     pub tick_jitter_ns: u64,
 }
@@ -424,8 +432,10 @@ impl Scenario {
                 "scripted": self.faults.scripted.iter().map(|s| format!("{:?}#{} errno {} ({})", s.site, s.nth, s.errno, if s.run_phase { "run" } else { "setup" })).collect::<Vec<_>>(),
                 "stall_pm": self.faults.stall_pm,
                 "stall_max_ns": self.faults.stall_max_ns,
+                "ip_options": self.net.ip_options.map(|(a, b)| vec![a, u32::from(b)]),
                 "addr_in_use_pm": self.faults.addr_in_use_pm,
                 "addr_in_use_from_round": self.faults.addr_in_use_from_round,
+                "addr_in_use_burst": self.faults.addr_in_use_burst.map(|(a, b)| vec![a, b]),
                 "tick_base_ns": self.faults.tick_base_ns,
                 "tick_jitter_ns": self.faults.tick_jitter_ns,
             },
